@@ -145,6 +145,31 @@ func C16(t Tier) int {
 		})
 		perDom[d.Name] = n
 	}
+	// charset, byte by byte: every single byte value as a one-character name and as the second character after "a", for the
+	// topic name (three message types) and the moniker: accepted <=> the byte is in the published character set
+	charsetEvals := 0
+	for b := 0; b < 256; b++ {
+		for _, name := range []string{string([]byte{byte(b)}), "a" + string([]byte{byte(b)}), string([]byte{byte(b)}) + "a"} {
+			want := refTopic(name)
+			for _, m := range []sdk.Msg{
+				aoltypes.NewMsgCreateTopic(name, "", e.A.Bech),
+				aoltypes.NewMsgDeleteWriter(name, e.W.Bech, e.A.Bech),
+				aoltypes.NewMsgAddRecordRequest(name, nil, nil, e.W.Bech, e.A.Bech, ""),
+				aoltypes.NewMsgAddWriter(name, "", "", e.W.Bech, e.A.Bech),
+			} {
+				charsetEvals++
+				if got := m.ValidateBasic() == nil; got != want {
+					mm = append(mm, mismatch{fmt.Sprintf("%T", m), map[bool]string{true: "rejects-within-limits", false: "accepts-out-of-limits"}[want], []string{fmt.Sprintf("topic-byte=0x%02x", b)}, 1, fmt.Sprintf("topic name %q: ValidateBasic accepts=%v, published charset says %v", name, !want, want)})
+				}
+			}
+			mon := aoltypes.NewMsgAddWriter("a", name, "", e.W.Bech, e.A.Bech)
+			charsetEvals++
+			if got := mon.ValidateBasic() == nil; got != refMoniker(name) {
+				mm = append(mm, mismatch{"*types.MsgAddWriterRequest", map[bool]string{true: "rejects-within-limits", false: "accepts-out-of-limits"}[refMoniker(name)], []string{fmt.Sprintf("moniker-byte=0x%02x", b)}, 1, fmt.Sprintf("moniker %q: ValidateBasic accepts=%v", name, got)})
+			}
+		}
+	}
+	evals += charsetEvals
 	// report the minimal (fewest non-default fields) mismatches per (type, direction), at most 4 each
 	sort.SliceStable(mm, func(i, j int) bool { return mm[i].odd < mm[j].odd })
 	perKey := map[string]int{}
